@@ -50,9 +50,11 @@ def handler(case):
                 if l.parent_network is mg and r["cb_open"][dist.name] and not any(q["phase"] in ("step", "fail") and q is not r and q["k"] <= r["k"] and q["cb_open"].get(dist.name) for q in info):
                     viols.append(("c14.mg-fault-trips-dist", f"increment {r['k']}: fault on microgrid line {r['line']} opened the breaker of {dist.name}"))
             if r["phase"] == "step":
-                # a microgrid is never connected to a tripped feeder whose sectioning is still running (any mode, any control)
-                if not r["cb_open"][mg.name] and r["cb_open"][dist.name] and r["timers"][dist.name] > 0:
-                    viols.append(("c14.reconnect-before-parent", f"increment {r['k']}: {mode} microgrid is connected while the breaker of {dist.name} is open and its sectioning time still runs ({r['timers'][dist.name]} h left)"))
+                # a microgrid never *reconnects* to a tripped feeder whose sectioning is still running (any mode, any control).
+                # (Being connected already is legitimate: a support-mode microgrid that reconnected while the feeder waits for the
+                # repair of its own line stays connected when a further fault on a de-energised line re-arms the feeder's timer.)
+                if prev_open and not r["cb_open"][mg.name] and r["cb_open"][dist.name] and r["timers"][dist.name] > 0:
+                    viols.append(("c14.reconnect-before-parent", f"increment {r['k']}: {mode} microgrid reconnects while the breaker of {dist.name} is open and its sectioning time still runs ({r['timers'][dist.name]} h left)"))
                 if mode == "SURVIVAL" and prev_open and r["dist_failed"][dist.name] and not r["cb_open"][mg.name]:
                     viols.append(("c14.survival", f"increment {r['k']}: SURVIVAL microgrid reconnected although {dist.name} still has a failed line {r['failed']}"))
                 prev_open = r["cb_open"][mg.name]
@@ -106,6 +108,11 @@ def gen(rng, nm, na):
         mg_lines = [l.name for l in ps.lines if l.name.startswith("ML")]
         d_lines = [l.name for l in ps.lines if l.name.startswith("F0")]
         kind = rng.random()
+        if len(d_lines) >= 2 and j % 5 == 0 and ctrl == "manual":
+            kind = 0.55          # targeted: feeder waits for its own line, second fault meanwhile
+        elif len(d_lines) >= 2 and j % 5 == 1:
+            kind = 0.4           # targeted: SURVIVAL microgrid, two overlapping faults repaired at different times
+            c["spec"]["mg"]["mode"] = "survival"
         if kind < 0.35:      # one fault in the hosting distribution network
             k0 = rng.randint(1, 4); ln = rng.choice(d_lines)
             c["faults"] = {str(k0): [[ln, str(rng.choice([F(1), F(2), F(5, 2), F(3)]))]]}
@@ -116,6 +123,17 @@ def gen(rng, nm, na):
             if a == b or len(c["faults"]) == 1:
                 c["faults"] = {str(k0): [[a, "1"], [b, "4"]]}
             c["n_inc"] = c["n_inc"] + int(F(5) / F(c["dt"]))
+        elif kind < 0.58 and len(d_lines) >= 2:
+            # the feeder waits for the repair of its own first line (breaker held open long after the sectioning time), a
+            # support-mode microgrid reconnects meanwhile; then a second fault elsewhere in the feeder (on a line that may
+            # be de-energised): the microgrid has to island again iff that line was in service
+            Tq, dtq = F(c["spec"]["ctrl"]["T"]), F(c["dt"])
+            k0 = rng.randint(1, 2); second = rng.choice(d_lines[1:])
+            k2 = k0 + math.ceil(Tq / dtq) + rng.randint(1, 4)
+            c["faults"] = {str(k0): [[d_lines[0], str(Tq + (k2 + 6) * dtq)]], str(k2): [[second, str(rng.choice([F(1), F(2), F(3)]))]]}
+            c["n_inc"] = max(c["n_inc"], k2 + int((Tq + 12) / dtq))
+            if c["spec"]["mg"].get("mode") == "survival" and rng.random() < 0.8:
+                c["spec"]["mg"]["mode"] = rng.choice(["full", "limited"])
         elif kind < 0.65:    # faults inside the microgrid only
             c["faults"] = {str(rng.randint(1, 5)): [[rng.choice(mg_lines), str(rng.choice([F(1), F(2)]))]] for _ in range(rng.randint(1, 2))}
         else:                # 1-4 overlapping faults anywhere
@@ -124,7 +142,9 @@ def gen(rng, nm, na):
             for _ in range(rng.randint(1, 4)):
                 c["faults"].setdefault(str(rng.randint(1, 12)), []).append([rng.choice(allp), str(rng.choice([F(1, 2), F(1), F(3, 2), F(2), F(5, 2)]))])
         nodev = c["spec"]["ctrl"].get("nodev")
-        if nodev is not None and rng.random() < 0.4 and d_lines:
+        if ctrl == "main" and j % 3 == 0 and nodev is None:
+            nodev = c["spec"]["ctrl"]["nodev"] = []
+        if nodev is not None and (rng.random() < 0.4 or j % 3 == 0) and d_lines:
             # a fault on a distribution line without sensor under ICT-based control: the sectioning takes the manual time,
             # a support-mode microgrid has to wait for it
             ln = rng.choice(d_lines)
@@ -152,7 +172,7 @@ def run(res):
     rng = random.Random(res.seed * 10009 + 79)
     nm, na = (45, 15) if res.tier == "quick" else (1500, 400)
     res.rule = ("microgrids of 1-3 lines (with/without disconnector) in SURVIVAL / FULL_SUPPORT / LIMITED_SUPPORT at a random bus of feeder 0; 35% single fault in the hosting "
-                "network (reconnection timing), 15% two overlapping faults in the hosting network repaired at different times, 15% faults inside the microgrid only, 35% 1-4 overlapping faults anywhere; manual control (model + implementation) and "
+                "network (reconnection timing), 15% two overlapping faults in the hosting network repaired at different times, 8% long fault on the feeder's own line with a second fault elsewhere meanwhile, 7% faults inside the microgrid only, 35% 1-4 overlapping faults anywhere; manual control (model + implementation) and "
                 "MainController (implementation). non-trivial = distinct (mode, automatic, set of breaker/fault states visited)")
     run_cases(res, gen(rng, nm, na), handler, compare)
 
